@@ -447,6 +447,29 @@ func (c *Ctx) retains(v ssa.Value, depth int, seen map[ssa.Value]bool) string {
 		switch x := r.(type) {
 		case *ssa.Store:
 			if x.Val == v {
+				// spilled into a cell of the function because a literal captures the variable: follow the cell
+				if cell, ok := x.Addr.(*ssa.Alloc); ok && cell.Parent() == x.Parent() {
+					esc := ""
+					for _, ref := range an.Referrers(cell) {
+						switch y := ref.(type) {
+						case *ssa.Store, *ssa.DebugRef:
+						case *ssa.UnOp:
+							if w := c.retains(y, depth, seen); w != "" {
+								esc = w
+							}
+						case *ssa.MakeClosure:
+							if w := c.closureRetains(y, cell, depth, seen); w != "" {
+								esc = w
+							}
+						default:
+							esc = "the cell holding the *RawParams parameter escapes at " + c.ipos(ref)
+						}
+					}
+					if esc != "" {
+						return esc
+					}
+					continue
+				}
 				return "the *RawParams parameter is stored at " + c.ipos(x)
 			}
 		case *ssa.MakeClosure:
@@ -522,4 +545,68 @@ func (c *Ctx) globalWritesIn(pkg string) [][2]string {
 		}
 	}
 	return out
+}
+
+// closureRetains: a literal that captured the cell holding the pooled pointer is acceptable when the literal itself is only
+// called, or handed to a module function that only calls it, and what it does with the pointer is not a retention either.
+func (c *Ctx) closureRetains(mc *ssa.MakeClosure, cell *ssa.Alloc, depth int, seen map[ssa.Value]bool) string {
+	cl, _ := mc.Fn.(*ssa.Function)
+	if cl == nil {
+		return "captured by an unknown closure"
+	}
+	// uses of the literal
+	var onlyCalled func(v ssa.Value, d int) string
+	onlyCalled = func(v ssa.Value, d int) string {
+		for _, r := range an.Referrers(v) {
+			switch x := r.(type) {
+			case *ssa.DebugRef:
+			case *ssa.Store:
+				// kept in a local variable: follow its loads
+				if a, ok := x.Addr.(*ssa.Alloc); ok && x.Val == v {
+					for _, ld := range an.CellLoads(a) {
+						if w := onlyCalled(ld, d+1); w != "" {
+							return w
+						}
+					}
+					continue
+				}
+				return "the literal that captured the *RawParams parameter is stored at " + c.ipos(x)
+			case *ssa.Call:
+				if x.Call.Value == v {
+					continue
+				}
+				h := x.Call.StaticCallee()
+				if h == nil || !pipeline.InModule(pipeline.FuncPkgPath(h)) || len(h.Blocks) == 0 || d > 2 {
+					return "the literal that captured the *RawParams parameter is handed to " + c.ipos(x)
+				}
+				for i, a := range x.Call.Args {
+					if a == v && i < len(h.Params) {
+						if w := onlyCalled(h.Params[i], d+1); w != "" {
+							return w
+						}
+					}
+				}
+			default:
+				return "the literal that captured the *RawParams parameter escapes at " + c.ipos(r)
+			}
+		}
+		return ""
+	}
+	if w := onlyCalled(mc, 0); w != "" {
+		return w
+	}
+	// what the literal does with the pointer
+	for i, b := range mc.Bindings {
+		if b != ssa.Value(cell) || i >= len(cl.FreeVars) {
+			continue
+		}
+		for _, r := range an.Referrers(cl.FreeVars[i]) {
+			if ld, ok := r.(*ssa.UnOp); ok {
+				if w := c.retains(ld, depth+1, seen); w != "" {
+					return w
+				}
+			}
+		}
+	}
+	return ""
 }
